@@ -9,7 +9,8 @@ pub mod template {
 }
 pub mod config {
     use super::*;
-    // (extracted below: FieldKey, AccountType)
+    // (FieldKey, AccountType are extracted below, at top level)
+    pub enum RowOrder { OldToNew, NewToOld }
 }
 #[verifier::external_body]
 pub struct ImportError { _p: usize }
